@@ -24,7 +24,8 @@ RULE = ('dense arrays d=2..6, mode sizes 1..6, magnitude 1e-6..1e6, exact-rank '
 REQUIRED = {'svd-structure': 300, 'svd-error-bound': 200, 'svd-rank-minimal':
     300, 'svd-exact-rank': 40, 'skel-size': 1000, 'skel-product': 1000,
     'skel-rank-rule': 800, 'skel-give_to': 500, 'msvd-product': 300,
-    'svd_matrix-roundtrip': 20, 'svd_matrix-interleaving': 100}
+    'svd_matrix-roundtrip': 20, 'svd_matrix-interleaving': 100,
+    'svd_matrix-cap': 40}
 ASSUMPTIONS = ['dense SVD (LAPACK) is the reference for singular values',
     'rounding noise of computed singular values: 1e3*eps*s_1 (SVD), '
     'eigenvalues of the Gram matrix: 1e3*eps*s_1^2 (matrix_svd)',
@@ -391,7 +392,16 @@ def run_svd_matrix(case, ctx):
             f'entry ({i},{j}) of M is not at QTT position {c}')
     # truncated: error bound and caps come from the interposed svd monitor
     e = nrm * 10.0 ** rng.uniform(-6, -0.5)
-    teneva.svd_matrix(M, e, int(rng.integers(1, 9)))
+    cap = int(rng.integers(1, 9))
+    Zc = teneva.svd_matrix(M, e, cap) if rng.random() < 0.5 else \
+        teneva.svd_matrix(M, e=e, r=cap)
+    ctx.check('svd_matrix-cap', ref.wellformed(Zc, [4] * q) is None
+        and all(x <= cap for x in ref.ranks_of(Zc)), f'svd_matrix(M, e, r={cap}'
+        f'): ranks {ref.ranks_of(Zc) if isinstance(Zc, list) else None} exceed '
+        'the cap')
+    Zt = teneva.svd_matrix(M, 1e-14 * nrm, 1)
+    ctx.check('svd_matrix-cap', all(x == 1 for x in ref.ranks_of(Zt)),
+        'svd_matrix with r=1 returned ranks above 1')
     ctx.nontrivial(['svd_matrix', q, ref.ranks_of(Z)])
 
 
